@@ -244,75 +244,131 @@ theorem tableGet_num (hwf : WellFormed pb) {y x : Nat} (hy : y < pb.height) (hx 
     rw [← List.getElem_eq_getD (h := by omega) []]; exact List.getElem_mem _
   exact pyIndex_nat _ x 0 (by rw [hrow _ hmem]; exact hx)
 
+theorem givenCs_eq (hwf : WellFormed pb) {y x : Nat} (hy : y < pb.height) (hx : x < pb.width) :
+    givenCs pb y x = .ok (givenE pb y x) := by
+  unfold givenCs givenE
+  rw [tableGet_num hwf hy hx, ok_bind]
+  by_cases hg : 0 < given pb y x
+  · rw [if_pos hg, if_pos hg, ansAt_nat pb hy hx]; rfl
+  · rw [if_neg hg, if_neg hg]
+
+theorem squareCs_eq (pb : Problem) {y x : Nat} (hy : y < pb.height) (hx : x < pb.width) :
+    squareCs pb y x = .ok (sqE pb y x) := by
+  have e1 : ((y : Int) + 1) = ((y + 1 : Nat) : Int) := by push_cast; rfl
+  have e2 : ((x : Int) + 1) = ((x + 1 : Nat) : Int) := by push_cast; rfl
+  unfold squareCs sqE
+  by_cases hc : y + 1 < pb.height ∧ x + 1 < pb.width
+  · rw [if_pos (by omega), if_pos hc, e1, e2, isZero_nat pb hy hx, ok_bind, isZero_nat pb hy hc.2, ok_bind]
+    rw [isZero_nat pb hc.1 hx, isZero_nat pb hc.1 hc.2]
+    unfold zE
+    rw [orE_node _ _ _ _ rfl rfl, ok_bind, ok_bind, orE_node _ _ _ _ rfl rfl, ok_bind, ok_bind,
+      orE_node _ _ _ _ rfl rfl]
+    rfl
+  · rw [if_neg (by omega), if_neg hc]
+
+theorem downCs_eq {bid : List (List Int)}
+    (hrep : Rep pb.height pb.width bid (fun y x => (regionOf pb y x : Int)))
+    {y x : Nat} (hy : y < pb.height) (hx : x < pb.width) :
+    downCs pb bid y x = .ok (downE pb y x) := by
+  have e1 : ((y : Int) + 1) = ((y + 1 : Nat) : Int) := by push_cast; rfl
+  unfold downCs downE
+  by_cases hc : y + 1 < pb.height
+  · rw [if_pos (by omega), e1, tableGet_rep hrep hy hx, ok_bind, tableGet_rep hrep hc hx, ok_bind]
+    by_cases hr : regionOf pb y x = regionOf pb (y + 1) x
+    · rw [if_neg (by simp [hr]), if_neg (by simp [hr])]
+    · rw [if_pos (by simpa using hr), if_pos ⟨hc, hr⟩, differCs_nat pb hy hx hc hx]
+  · rw [if_neg (by omega), if_neg (by tauto)]
+
+theorem rightCs_eq {bid : List (List Int)}
+    (hrep : Rep pb.height pb.width bid (fun y x => (regionOf pb y x : Int)))
+    {y x : Nat} (hy : y < pb.height) (hx : x < pb.width) :
+    rightCs pb bid y x = .ok (rightE pb y x) := by
+  have e2 : ((x : Int) + 1) = ((x + 1 : Nat) : Int) := by push_cast; rfl
+  unfold rightCs rightE
+  by_cases hc : x + 1 < pb.width
+  · rw [if_pos (by omega), e2, tableGet_rep hrep hy hx, ok_bind, tableGet_rep hrep hy hc, ok_bind]
+    by_cases hr : regionOf pb y x = regionOf pb y (x + 1)
+    · rw [if_neg (by simp [hr]), if_neg (by simp [hr])]
+    · rw [if_pos (by simpa using hr), if_pos ⟨hc, hr⟩, differCs_nat pb hy hx hy hc]
+  · rw [if_neg (by omega), if_neg (by tauto)]
+
 theorem cellCs_eq (hwf : WellFormed pb) {bid : List (List Int)}
     (hrep : Rep pb.height pb.width bid (fun y x => (regionOf pb y x : Int)))
     {y x : Nat} (hy : y < pb.height) (hx : x < pb.width) :
     cellCs pb bid (y, x) = .ok (cellE pb y x) := by
   unfold cellCs
   simp only
-  rw [tableGet_num hwf hy hx, ok_bind]
-  have e1 : ((y : Int) + 1) = ((y + 1 : Nat) : Int) := by push_cast; rfl
-  have e2 : ((x : Int) + 1) = ((x + 1 : Nat) : Int) := by push_cast; rfl
-  -- givens
-  have c1 : (if given pb y x > 0 then (do
-        let a ← ansAt pb (y : Int) (x : Int)
-        let e ← cmpPy .eq a (.litI (given pb y x))
-        let e ← ensure1 e
-        Except.ok [e]) else Except.ok []) = (.ok (givenE pb y x) : Py (List Expr)) := by
-    unfold givenE
-    by_cases hg : 0 < given pb y x
-    · rw [if_pos hg, if_pos hg, ansAt_nat pb hy hx]; rfl
-    · rw [if_neg hg, if_neg hg]
-  rw [c1, ok_bind]
-  -- 2 × 2
-  have c2 : (if (y : Int) < (pb.height : Int) - 1 ∧ (x : Int) < (pb.width : Int) - 1 then (do
-        let z1 ← isZero pb (y : Int) (x : Int)
-        let z2 ← isZero pb (y : Int) ((x : Int) + 1)
-        let o1 ← orE z1 z2
-        let z3 ← isZero pb ((y : Int) + 1) (x : Int)
-        let o2 ← orE o1 z3
-        let z4 ← isZero pb ((y : Int) + 1) ((x : Int) + 1)
-        let o3 ← orE o2 z4
-        let e ← ensure1 o3
-        Except.ok [e]) else Except.ok []) = (.ok (sqE pb y x) : Py (List Expr)) := by
-    unfold sqE
-    by_cases hc : y + 1 < pb.height ∧ x + 1 < pb.width
-    · rw [if_pos (by omega), if_pos hc, e1, e2, isZero_nat pb hy hx, ok_bind, isZero_nat pb hy hc.2, ok_bind]
-      rw [isZero_nat pb hc.1 hx, isZero_nat pb hc.1 hc.2]
-      unfold zE
-      rw [orE_node _ _ _ _ rfl rfl, ok_bind, ok_bind, orE_node _ _ _ _ rfl rfl, ok_bind, ok_bind,
-        orE_node _ _ _ _ rfl rfl]
-      rfl
-    · rw [if_neg (by omega), if_neg hc]
-  rw [c2, ok_bind]
-  -- the cell below
-  have c3 : (if (y : Int) < (pb.height : Int) - 1 then (do
-        let r ← tableGet bid (y : Int) (x : Int)
-        let r' ← tableGet bid ((y : Int) + 1) (x : Int)
-        if r != r' then differCs pb (y : Int) (x : Int) ((y : Int) + 1) (x : Int) else Except.ok [])
-      else Except.ok []) = (.ok (downE pb y x) : Py (List Expr)) := by
-    unfold downE
-    by_cases hc : y + 1 < pb.height
-    · rw [if_pos (by omega), e1, tableGet_rep hrep hy hx, ok_bind, tableGet_rep hrep hc hx, ok_bind]
-      by_cases hr : regionOf pb y x = regionOf pb (y + 1) x
-      · rw [if_neg (by simp [hr]), if_neg (by simp [hr])]
-      · rw [if_pos (by simpa using hr), if_pos ⟨hc, hr⟩, differCs_nat pb hy hx hc hx]
-    · rw [if_neg (by omega), if_neg (by tauto)]
-  rw [c3, ok_bind]
-  -- the cell to the right
-  have c4 : (if (x : Int) < (pb.width : Int) - 1 then (do
-        let r ← tableGet bid (y : Int) (x : Int)
-        let r' ← tableGet bid (y : Int) ((x : Int) + 1)
-        if r != r' then differCs pb (y : Int) (x : Int) (y : Int) ((x : Int) + 1) else Except.ok [])
-      else Except.ok []) = (.ok (rightE pb y x) : Py (List Expr)) := by
-    unfold rightE
-    by_cases hc : x + 1 < pb.width
-    · rw [if_pos (by omega), e2, tableGet_rep hrep hy hx, ok_bind, tableGet_rep hrep hy hc, ok_bind]
-      by_cases hr : regionOf pb y x = regionOf pb y (x + 1)
-      · rw [if_neg (by simp [hr]), if_neg (by simp [hr])]
-      · rw [if_pos (by simpa using hr), if_pos ⟨hc, hr⟩, differCs_nat pb hy hx hy hc]
-    · rw [if_neg (by omega), if_neg (by tauto)]
-  rw [c4, ok_bind]
+  rw [givenCs_eq hwf hy hx, ok_bind, squareCs_eq pb hy hx, ok_bind, downCs_eq hrep hy hx, ok_bind,
+    rightCs_eq hrep hy hx, ok_bind]
   rfl
+
+/-! ### the posted program in closed form -/
+
+/-- The connectivity fragment (rank / root encoding over `has_num`). -/
+def avc (pb : Problem) : Prog :=
+  C04L1.avcProg (Graph.grid pb.height pb.width) (bvars 0 (pb.height * pb.width))
+    (pb.height * pb.width + pb.height * pb.width) false
+
+theorem hasNum_boolArgs (pb : Problem) :
+    BoolArgs (pb.height * pb.width + pb.height * pb.width) (bvars 0 (pb.height * pb.width)) := by
+  intro e he
+  obtain ⟨h1, h2⟩ := C11FragWT.bvars_boolArgs _ e he
+  exact ⟨h1, C11Frag.varsBelow_mono (by omega) _ h2⟩
+
+theorem grid_pos (hwf : WellFormed pb) : 0 < (Graph.grid pb.height pb.width).n :=
+  Nat.mul_pos hwf.1 hwf.2.1
+
+theorem avc_eq (hwf : WellFormed pb) :
+    activeVerticesConnected (Graph.grid pb.height pb.width) (bvars 0 (pb.height * pb.width))
+      (pb.height * pb.width + pb.height * pb.width) false false = .ok (avc pb) :=
+  C04L1.avc_eq_prog (grid_pos hwf) (C04Prim.grid_wf _ _) (by simp [bvars, Graph.grid]) (hasNum_boolArgs pb)
+
+/-- Id of the first region counter. -/
+def base2 (pb : Problem) : Nat := pb.height * pb.width + pb.height * pb.width + (avc pb).decls.length
+
+/-- The caller's variables: `has_num`, then the cell numbers. -/
+def D0 (pb : Problem) : List VarDecl :=
+  List.replicate (pb.height * pb.width) .bool ++
+    (cellsOf pb.height pb.width).map fun p => VarDecl.int 0 (sizeAt pb p.1 p.2)
+
+/-- The region-counter fragment. -/
+def blocksProg (pb : Problem) : Prog :=
+  { decls := pb.blocks.map fun b => VarDecl.int 1 b.length,
+    cs := (pb.blocks.zipIdx.map fun bi => blockE pb (base2 pb + bi.2) bi.1).flatten }
+
+def firstCs (pb : Problem) : List Expr := (cellsOf pb.height pb.width).map fun p => firstE pb p.1 p.2
+
+def cellsCs (pb : Problem) : List Expr := ((cellsOf pb.height pb.width).map fun p => cellE pb p.1 p.2).flatten
+
+def keysOf (pb : Problem) : List Nat :=
+  (cellsOf pb.height pb.width).map fun p => pb.height * pb.width + (p.1 * pb.width + p.2)
+
+theorem mem_cellsOf {h w : Nat} {p : Nat × Nat} : p ∈ cellsOf h w ↔ p.1 < h ∧ p.2 < w := by
+  simp only [cellsOf, List.mem_flatMap, List.mem_range, List.mem_map]
+  constructor
+  · rintro ⟨y, hy, x, hx, rfl⟩; exact ⟨hy, hx⟩
+  · rintro ⟨hy, hx⟩; exact ⟨p.1, hy, p.2, hx, rfl⟩
+
+theorem program_eq (hwf : WellFormed pb) :
+    program pb = .ok { decls := D0 pb ++ (avc pb).decls ++ (blocksProg pb).decls,
+                       cs := firstCs pb ++ (avc pb).cs ++ (blocksProg pb).cs ++ cellsCs pb,
+                       keys := keysOf pb } := by
+  obtain ⟨bid, hbid, hrep⟩ := fillTable_wf hwf
+  unfold program programWith
+  simp only
+  rw [hbid, ok_bind]
+  rw [mapM_eq_ok_map (g := fun p : Nat × Nat => (VarDecl.int 0 (sizeAt pb p.1 p.2), firstE pb p.1 p.2)), ok_bind]
+  · rw [avc_eq hwf, ok_bind]
+    rw [mapM_eq_ok_map (g := fun bi : List (Int × Int) × Nat => blockE pb (base2 pb + bi.2) bi.1), ok_bind]
+    · rw [mapM_eq_ok_map (g := fun p : Nat × Nat => cellE pb p.1 p.2), ok_bind]
+      · simp only [D0, blocksProg, firstCs, cellsCs, keysOf, List.map_map, Function.comp_def]
+      · intro p hp
+        obtain ⟨h1, h2⟩ := mem_cellsOf.1 hp
+        exact cellCs_eq hwf hrep h1 h2
+    · intro bi hbi
+      exact blockCs_eq pb _ bi.2 (block_onBoard hwf (List.fst_mem_of_mem_zipIdx hbi))
+  · intro p hp
+    obtain ⟨h1, h2⟩ := mem_cellsOf.1 hp
+    exact firstCell_eq hwf hrep h1 h2
 
 end Cspuz.Proofs.C11NanroA
